@@ -27,6 +27,7 @@ inductive Err where
   | repCode          -- ExceptionRepCode
   | frameChannel     -- ExceptionFrameChannel
   | frameArray       -- ExceptionFrameArray
+  | frameArrayInit   -- ExceptionFrameArrayInit (a Frame lists a channel the CHANNEL set does not define)
   | other (e : TD.C03.Err)
   deriving Repr, DecidableEq
 
@@ -58,6 +59,29 @@ structure FrameType where
   name : ObName
   chans : List Chan
   deriving Repr, DecidableEq
+
+/-- `frame_array_from_RP66V1`: the channels of a frame array are, **in the order the Frame object lists them in its
+CHANNELS attribute** (which is the order of the values in every frame record), the CHANNEL-set objects of those names
+(`channel_eflr[channel_obname]`, a lookup in `object_name_map`); the order in which the CHANNEL set defines its objects
+plays no role.  `defs` = the CHANNEL set objects in definition order (names are distinct after de-duplication). -/
+def pickChans (defs : List Chan) : List Bytes → Except Err (List Chan)
+  | [] => .ok []
+  | i :: is =>
+    match defs.find? (fun c => c.ident = i) with
+    | none => .error .frameArrayInit
+    | some c => match pickChans defs is with
+      | .error e => .error e
+      | .ok cs => .ok (c :: cs)
+
+/-- `log_pass_from_RP66V1`: one frame array per FRAME object, in FRAME-set order -/
+def buildLogPass (defs : List Chan) : List (ObName × List Bytes) → Except Err (List FrameType)
+  | [] => .ok []
+  | (n, ids) :: fs =>
+    match pickChans defs ids with
+    | .error e => .error e
+    | .ok cs => match buildLogPass defs fs with
+      | .error e => .error e
+      | .ok fts => .ok (⟨n, cs⟩ :: fts)
 
 /-- channel storage: one entry per frame -/
 abbrev Arr := List (Option (List Value))
